@@ -190,10 +190,17 @@ def check_node(node, d, t, V, path, prev_value, C):
         emod = {i for i, c in enumerate(node.children) if t in c.wrote_at}
         if modi != emod:
             V.append(f"{path} t={t}: modified children {sorted(modi)} != children ticked this cycle {sorted(emod)}")
+        if k == "tsl" and d.get("dk") is not None:
+            C["list_delta_index_checks"] = C.get("list_delta_index_checks", 0) + 1
+            if node.shape[1] == 0:
+                C["dynamic_list_delta_checks"] = C.get("dynamic_list_delta_checks", 0) + 1
+            if set(d["dk"]) != emod:
+                V.append(f"{path} t={t}: the list's per-tick delta lists indices {sorted(d['dk'])} but the children ticked this cycle are "
+                         f"{sorted(emod)}")
         for i, (c, cd) in enumerate(zip(node.children, d["ch"])):
             if c.kind in ("tss", "tsd", "tsb") and cd["m"]:
                 C["nested_child_deltas"] = C.get("nested_child_deltas", 0) + 1
-            check_node(c, cd, t, V, f"{path}.{i}", prev_value[i] if prev_value is not None else None, C)
+            check_node(c, cd, t, V, f"{path}.{i}", prev_value[i] if prev_value is not None and i < len(prev_value) else None, C)
     elif k == "tsw":
         C["window_ticks"] = C.get("window_ticks", 0) + 1
         if bool(d["av"]) != node.all_valid() or bool(d["v"]) != node.valid():
